@@ -401,7 +401,7 @@ class ImageBatch(DataTensor):
     def __iter__(self) -> Generator[Image, None, None]:
         r"""Generator to iterate over images in batch."""
         for index in range(len(self)):
-            data = self.tensor().narrow(0, index, 1).squeeze_(0)
+            data = self.tensor().narrow(0, index, 1).squeeze(0)
             yield self._make_subitem(data, self._grid[index])
 
     @property
